@@ -54,6 +54,10 @@ CHECKS["C03"] = dict(
     text="Proved for ANY number of pinger threads, ANY well-formed programs of ping/clone/drop, ANY number of dispatches and ANY schedule at the granularity of one eventfd write/read, Arc count change or poll per step: the counter always encodes exactly the pings written since the last drain plus the close marker (C03_invariant), hence the drain calls back iff at least one ping was written since the previous drain (no loss, no spurious callback, coalescing), a pending ping makes the next poll return the source (progress), the close marker is written at most once and only when no handle is left, the source is removed only by the drain that sees it, and afterwards nothing can write and the counter stays zero (no spinning). Correspondence: ~1300 schedules per quick run executed on real OS threads under a baton scheduler (yield points before every shared effect) and on the extracted model - step/yield-id/observation traces must be equal - plus an oracle on the real traces.",
     note="Eventfd atomicity, the level-triggered readiness of a non-zero counter and Arc's atomic count are the assumed environment; interleavings below the yield-point granularity (compiler/CPU reordering inside a segment) are invisible. EAGAIN at 2^64-2 is not modelled. No axioms.",
     technique="Coq proof (invariant by induction over arbitrary schedules) + controlled-scheduler differential correspondence on real threads", ref="DESIGN.md 4 (C03)")
+CHECKS["C04"] = dict(
+    text="Proved for channel() and sync_channel(n>=1) used through send/try_send, ANY number of sender threads, ANY well-formed programs of send/clone/drop, ANY number of dispatches and ANY schedule (one mpsc enqueue/try_send, sender-count change, eventfd write/read, poll or try_recv per step): delivered ++ queued = sent (exactly once, in enqueue order, nothing invented); a non-empty queue or a pending disconnect always has a wake-up on its way (readable eventfd, a sender about to ping, or the loop inside its drain loop which ends with Empty/Closed or a self re-ping) whatever the batch limit; Closed is delivered at most once, only with no sender left and an empty queue, and removes the source. Known finding F9 (blocking send on sync_channel(0)) is reproduced by a scheduler witness every run and printed as KNOWN-FINDING. Correspondence: ~900 schedules per quick run on real threads vs the extracted model (step, yield-id and observation traces equal) + an oracle on the real traces.",
+    note="std::sync::mpsc is an assumed linearizable FIFO; the blocking SyncSender::send and the rendezvous channel are outside the proved model (F9). Liveness ('completes as long as the loop keeps dispatching') is the no-stranded-wake invariant plus the poll-progress lemma, checked end-to-end only by the runs. No axioms.",
+    technique="Coq proof (invariant by induction over arbitrary schedules) + controlled-scheduler differential correspondence on real threads", ref="DESIGN.md 4 (C04)")
 
 def main():
     props = [json.loads(l) for l in open(os.path.join(ROOT, "properties.jsonl"))]
